@@ -256,13 +256,19 @@ class ISite:
         return self.outer_body.loc(self.outer_body.blocks[self.outer_block].term.line)
 
 
-def inlined_sites(facts, body, pred, depth=2, _seen=()):
-    """call sites satisfying pred(Term) in `body` and (to the given depth) in the crate's own non-public helper functions it
-    calls directly; see ISite.  Lets a rule that reads `f` also read `f` after an extract-function refactoring."""
+def inlined_sites(facts, body, pred, depth=2, _seen=(), closures=True):
+    """call sites satisfying pred(Term) in `body`, in its closures, and (to the given depth) in the crate's own non-public helper
+    functions it calls directly; see ISite.  Lets a rule that reads `f` also read `f` after an extract-function refactoring or a
+    loop <-> closure rewrite.  Sites inside closures keep the closure's own frame (its literals include what the adaptor chain
+    guarantees for the element)."""
     from .defuse import subst
     from .conds import Lit
     out = []
     du = du_of(body)
+    if closures and body.kind != "closure":
+        for cb in facts.closures_of(body.path):
+            for s0 in inlined_sites(facts, cb, pred, depth, _seen, closures=False):
+                out.append(s0)
     for bi, t in body.calls():
         if t.callee is None:
             continue
